@@ -430,6 +430,46 @@ func takeSnap(path string) snap {
 	return s
 }
 
+// quiesce waits until the destination and its rotated siblings have not changed for `still`
+// (at most `max`) and returns the time of the last change seen (or the call time if none).
+func quiesce(path string, still, max time.Duration) time.Time {
+	last, lastChange, lastSeen := takeSnap(path), time.Now(), time.Now()
+	changed := false
+	deadline := time.Now().Add(max)
+	for time.Now().Before(deadline) && time.Since(lastSeen) < still {
+		time.Sleep(2 * time.Millisecond)
+		if sn := takeSnap(path); sn != last {
+			last, lastSeen, changed = sn, time.Now(), true
+			lastChange = lastSeen
+		}
+	}
+	_ = changed
+	return lastChange
+}
+
+// writtenSince returns the latest modification time among the destination and its rotated
+// siblings that were written at or after t0, how many there are, and whether their
+// modification times fall into more than one second.
+func writtenSince(path string, t0 time.Time) (latest time.Time, n int, spread bool) {
+	files, _ := filepath.Glob(path + ".*")
+	files = append(files, path)
+	t0 = t0.Add(-8 * time.Millisecond) // file times come from the coarse kernel clock
+	for _, f := range files {
+		fi, err := os.Stat(f)
+		if err != nil || fi.ModTime().Before(t0) {
+			continue
+		}
+		if n > 0 && fi.ModTime().Unix() != latest.Unix() {
+			spread = true
+		}
+		if fi.ModTime().After(latest) {
+			latest = fi.ModTime()
+		}
+		n++
+	}
+	return
+}
+
 // alignSecond sleeps until the wall clock is in the first part of a second.
 func alignSecond() {
 	ns := time.Now().Nanosecond()
@@ -568,13 +608,23 @@ func runC(in CIn, dir string) (ob Obs, lines [][][]byte, initB []byte, crash str
 			ambiguous = true
 			break
 		}
-		time.Sleep(120 * time.Millisecond) // let a multi-rotation flush finish
+		// let a multi-rotation flush finish (nothing changes for 150 ms), then take the flush's
+		// second from the files themselves (modification times of what was written since the
+		// send started) rather than from this goroutine's clock, which lags under load
+		quiesce(path, 150*time.Millisecond, 20*time.Second)
+		if ft, n, spread := writtenSince(path, t0); n > 0 {
+			if spread || ft.Nanosecond() > 985e6 || ft.Nanosecond() < 15e6 {
+				ambiguous = true
+				break
+			}
+			tflush = ft
+		}
 		ob.Secs = append(ob.Secs, s1-base, tflush.Unix()-base)
 	}
 	if !ob.Blocked {
 		if fb, ok := ch.(*fschannel.FileBackend); ok {
 			fb.Close()
-			time.Sleep(20 * time.Millisecond)
+			quiesce(path, 100*time.Millisecond, 20*time.Second)
 		}
 	}
 	if ambiguous {
